@@ -1445,3 +1445,243 @@ Proof.
       * intros _. apply Pres_refl.
     + apply op_post_same. intros evs ->. apply OT_pure; auto. cbn. eexists. split; [reflexivity|discriminate].
 Qed.
+
+(* ------------------------------------------------------------------------------------------- *)
+(* 9. Invariants                                                                                *)
+(* ------------------------------------------------------------------------------------------- *)
+
+Definition got_close (r : op_result) : bool :=
+  match r with ResMsg (ROk (MClose _)) => true | _ => false end.
+Definition is_cc (r : op_result) : bool :=
+  match r with
+  | ResMsg (RErr EConnectionClosed) | ResUnit (RErr EConnectionClosed) => true
+  | _ => false
+  end.
+
+(* close_received versus the state *)
+Definition crs (s : ws_state) (cr : bool) : Prop :=
+  match s with
+  | Active | ClosedByUs => cr = false
+  | ClosedByPeer | CloseAcknowledged => cr = true
+  | Terminated => True
+  end.
+
+Definition InvQ (x : ctx) (log : list event) (cr : bool) : Prop :=
+  QP (x_state x) (x_additional x) (queued log) /\
+  (x_state x = Terminated -> cr = true -> Pend (x_additional x) (queued log)).
+
+Lemma pure_res_not_msg s o r : pure_res s o r -> got_close r = false /\ is_cc r = false.
+Proof.
+  destruct o; cbn; try contradiction; try (intros ->; split; reflexivity).
+  intros (u & -> & Hu). split; [reflexivity|]. destruct u as [[]|e|p|]; try reflexivity.
+  exfalso. eapply Hu. reflexivity.
+Qed.
+
+Lemma got_close_msg m : (forall c, m <> MClose c) -> got_close (ResMsg (ROk m)) = false.
+Proof. intros H. destruct m; try reflexivity. exfalso. eapply H. reflexivity. Qed.
+
+Lemma wres_state r s0 x' evs : wres r s0 x' evs -> x_state x' = s0 \/ (closing_done s0 = true /\ x_state x' = Terminated).
+Proof. intros [(_ & H1 & H2 & _)|(H & _)]; auto. Qed.
+
+Lemma op_crs x o w r x' w' cr : op_post x o w r x' w' ->
+  crs (x_state x) cr -> crs (x_state x') (cr || got_close r).
+Proof.
+  intros (evs & Hl & Hr & HT & _) Hc.
+  destruct HT as [r0 Hnt HT| Hs -> _|o r0 s0 Hu Hs0 Hwm He HW|m Hs -> _|m Ha Hs -> _|o r0 Hs Ha _ Hp].
+  - destruct HT as [c Hs Hs' _ _ _|c Hs Hs' _ _ _|m Hm Hs' _ _ _ _|_ Hs' _ _|_ Hs' _ _ _|e Hs' _ _ _ _|p Hs' _ _ _|Hs' _ _ _];
+      rewrite Hs'; try (rewrite got_close_msg by assumption);
+      cbn [got_close crs]; rewrite ?orb_true_r, ?orb_false_r; auto.
+  - cbn. rewrite orb_false_r. exact Hc.
+  - cbn [got_close]. rewrite orb_false_r.
+    apply wres_state in HW. destruct HW as [HW|[_ HW]]; rewrite HW; [|exact I].
+    destruct Hs0 as [->|[Hs ->]]; [exact Hc|]. rewrite Hs in Hc. exact Hc.
+  - cbn. rewrite orb_false_r. exact Hc.
+  - cbn. rewrite orb_false_r. exact Hc.
+  - apply pure_res_not_msg in Hp. destruct Hp as [-> _]. rewrite orb_false_r, Hs. exact Hc.
+Qed.
+
+Lemma op_got_close_state x o w r x' w' : op_post x o w r x' w' -> got_close r = true ->
+  closing_done (x_state x') = true /\ can_read (x_state x) = true.
+Proof.
+  intros (evs & Hl & Hr & HT & _) Hg.
+  destruct HT as [r0 Hnt HT| Hs -> _|o r0 s0 Hu Hs0 Hwm He HW|m Hs -> _|m Ha Hs -> _|o r0 Hs Ha _ Hp];
+    try discriminate Hg.
+  - destruct HT as [c Hs Hs' _ _ _|c Hs Hs' _ _ _|m Hm Hs' _ _ _ _|_ Hs' _ _|_ Hs' _ _ _|e Hs' _ _ _ _|p Hs' _ _ _|Hs' _ _ _];
+      try discriminate Hg; try (rewrite Hs, Hs'; split; reflexivity).
+    rewrite got_close_msg in Hg by assumption. discriminate.
+  - apply pure_res_not_msg in Hp. destruct Hp as [Hp _]. congruence.
+Qed.
+
+Lemma op_InvQ x o w r x' w' cr : op_post x o w r x' w' -> is_raw o = false ->
+  crs (x_state x) cr -> InvQ x (w_log w) cr -> InvQ x' (w_log w') (cr || got_close r).
+Proof.
+  intros HP Hraw Hc [HQ HT].
+  pose proof (op_crs _ _ _ _ _ _ cr HP Hc) as Hc'.
+  pose proof (op_got_close_state _ _ _ _ _ _ HP) as Hg.
+  destruct HP as (evs & Hl & Hr & HTr & HQP & HPend).
+  unfold InvQ. rewrite Hl, queued_app. split; [apply HQP; assumption|].
+  intros Hs' Hcr'.
+  destruct (got_close r) eqn:Eg.
+  { destruct Hg as [Hg _]; [reflexivity|]. rewrite Hs' in Hg. discriminate. }
+  rewrite orb_false_r in Hcr'. subst cr.
+  destruct (x_state x) eqn:Es; cbn in Hc; try discriminate Hc.
+  - apply HPend; [discriminate|]. exact HQ.
+  - apply HPend; [discriminate|]. exact HQ.
+  - apply HPend; [discriminate|]. apply HT; reflexivity.
+Qed.
+
+(* ------------------------------------------------------------------------------------------- *)
+(* 10. Histories                                                                                *)
+(* ------------------------------------------------------------------------------------------- *)
+
+Definition close_received (rs : list (op_result * N)) : bool :=
+  existsb (fun p => got_close (fst p)) rs.
+Definition closed_reported (rs : list (op_result * N)) : bool :=
+  existsb (fun p => is_cc (fst p)) rs.
+(* no raw frames (Message::Frame is a documented pass-through) *)
+Definition no_raw (ops : list op) : Prop := forall f, ~ In (OpWrite (MFrame f)) ops.
+
+Lemma no_raw_cons o ops : no_raw (o :: ops) -> is_raw o = false /\ no_raw ops.
+Proof.
+  intros H. split.
+  - destruct o as [|m| | | | |]; try reflexivity. destruct m; try reflexivity.
+    exfalso. eapply H. left. reflexivity.
+  - intros f Hf. eapply H. right. exact Hf.
+Qed.
+
+Lemma run_ops_cons x o ops w :
+  run_ops x (o :: ops) w =
+  let '(res1, x1, w1) := run_op x o w in
+  let '(rs, x2, w2) := run_ops x1 ops w1 in
+  ((res1, blen (w_log w1)) :: rs, x2, w2).
+Proof. reflexivity. Qed.
+
+Lemma run_ops_app a : forall b x w,
+  run_ops x (a ++ b) w =
+  let '(r1, x1, w1) := run_ops x a w in
+  let '(r2, x2, w2) := run_ops x1 b w1 in
+  (r1 ++ r2, x2, w2).
+Proof.
+  induction a as [|o a IH]; intros b x w.
+  - cbn [app run_ops]. destruct (run_ops x b w) as [[r2 x2] w2]. reflexivity.
+  - cbn [app]. rewrite !run_ops_cons. destruct (run_op x o w) as [[res1 x1] w1].
+    rewrite IH. destruct (run_ops x1 a w1) as [[r1 x2] w2].
+    destruct (run_ops x2 b w2) as [[r2 x3] w3]. reflexivity.
+Qed.
+
+Lemma run_ops_inv ops : forall x w rs x' w' cr,
+  run_ops x ops w = (rs, x', w') -> crs (x_state x) cr ->
+  crs (x_state x') (cr || close_received rs) /\ x_role x' = x_role x /\
+  (exists evs, w_log w' = w_log w ++ evs) /\
+  (no_raw ops -> InvQ x (w_log w) cr -> InvQ x' (w_log w') (cr || close_received rs)).
+Proof.
+  induction ops as [|o ops IH]; intros x w rs x' w' cr H Hc.
+  - cbn in H. injection H as <- <- <-. cbn. rewrite orb_false_r. splits; auto.
+    exists []. symmetry. apply app_nil_r.
+  - rewrite run_ops_cons in H.
+    destruct (run_op x o w) as [[r1 x1] w1] eqn:E1.
+    destruct (run_ops x1 ops w1) as [[rs2 x2] w2] eqn:E2.
+    injection H as <- <- <-.
+    apply run_op_post in E1.
+    pose proof (op_crs _ _ _ _ _ _ cr E1 Hc) as Hc1.
+    destruct (IH _ _ _ _ _ _ E2 Hc1) as (Hc2 & Hr2 & (evs2 & Hl2) & HQ2).
+    cbn [close_received existsb fst]. fold (close_received rs2). rewrite orb_assoc.
+    splits; auto.
+    + destruct E1 as (evs1 & Hl1 & Hr1 & _). congruence.
+    + destruct E1 as (evs1 & Hl1 & _). exists (evs1 ++ evs2). rewrite Hl2, Hl1, app_assoc. reflexivity.
+    + intros Hnr HQ. apply no_raw_cons in Hnr. destruct Hnr as [Hraw Hnr].
+      apply HQ2; [exact Hnr|]. eapply op_InvQ; eassumption.
+Qed.
+
+Lemma ctx_new_init role part cfg x0 : ctx_new role part cfg = Some x0 ->
+  x_state x0 = Active /\ x_additional x0 = None /\ x_role x0 = role.
+Proof. unfold ctx_new. destruct (config_valid cfg); [|discriminate]. intros [= <-]. auto. Qed.
+
+(* everything the invariants say about a reachable configuration *)
+Lemma reach_inv role part cfg x0 w0 ops rs x w :
+  ctx_new role part cfg = Some x0 -> w_log w0 = [] -> run_ops x0 ops w0 = (rs, x, w) ->
+  crs (x_state x) (close_received rs) /\ x_role x = role /\
+  (no_raw ops -> InvQ x (w_log w) (close_received rs)).
+Proof.
+  intros Hn Hl H. apply ctx_new_init in Hn. destruct Hn as (Hs & Ha & Hr).
+  assert (Hc : crs (x_state x0) false) by (rewrite Hs; reflexivity).
+  destruct (run_ops_inv _ _ _ _ _ _ _ H Hc) as (Hc' & Hr' & _ & HQ).
+  cbn [orb] in *. splits; auto; [congruence|].
+  intros Hnr. apply HQ; [exact Hnr|].
+  split; rewrite Hs, Ha, Hl; cbn; [split; [constructor|exact I]|discriminate].
+Qed.
+
+(* ------------------------------------------------------------------------------------------- *)
+(* 11. C03 (a): nothing after Close                                                             *)
+(* ------------------------------------------------------------------------------------------- *)
+
+Definition close_queued (log : list event) : Prop :=
+  exists f, In f (queued log) /\ h_opcode (f_hdr f) = OCtl Close.
+
+Definition write_refused (r : op_result) : Prop :=
+  r = ResUnit (RErr (EProtocol SendAfterClosing)) \/ r = ResUnit (RErr EAlreadyClosed).
+
+Lemma write_refused_op x m w : is_active (x_state x) = false ->
+  exists r, run_op x (OpWrite m) w = (r, x, w) /\ write_refused r.
+Proof.
+  intros Ha. unfold run_op. rewrite write_eq.
+  destruct (x_state x) eqn:Es; try discriminate Ha; cbn [is_terminated is_active negb];
+    eexists; (split; [reflexivity|]); [left|left|left|right]; reflexivity.
+Qed.
+
+Lemma QP_shape s a q : QP s a q -> noclose q \/ endclose q.
+Proof.
+  assert (HP : Pend a q -> noclose q \/ endclose q).
+  { unfold Pend. destruct a; [intros [_ H]; left; exact H|intros H; right; exact H]. }
+  destruct s; cbn; auto; try (intros [H _]; left; exact H).
+  intros [[H _]|H]; auto.
+Qed.
+
+Lemma noclose_split pre c post : noclose (pre ++ c :: post) -> opc c <> OCtl Close.
+Proof.
+  intros H. apply noclose_app in H. destruct H as [_ H]. inversion H; assumption.
+Qed.
+
+Lemma shape_close_last q : noclose q \/ endclose q ->
+  forall pre c post, q = pre ++ c :: post -> opc c = OCtl Close -> post = [].
+Proof.
+  intros [H|(pre' & c' & -> & Hc' & Hn)] pre c post E Hc.
+  - subst q. apply noclose_split in H. contradiction.
+  - destruct post as [|p post] using rev_ind; [reflexivity|]. exfalso. clear IHpost.
+    change (pre ++ c :: post ++ [p]) with (pre ++ (c :: post) ++ [p]) in E.
+    rewrite app_assoc in E. apply app_inj_tail in E. destruct E as [E _]. subst pre'.
+    apply noclose_split in Hn. contradiction.
+Qed.
+
+Theorem a_no_write_after_close role part cfg x0 w0 ops rs x w :
+  ctx_new role part cfg = Some x0 -> w_log w0 = [] -> no_raw ops ->
+  run_ops x0 ops w0 = (rs, x, w) ->
+  close_queued (w_log w) ->
+  forall m, exists r, run_op x (OpWrite m) w = (r, x, w) /\ write_refused r.
+Proof.
+  intros Hn Hl Hnr H (f & Hin & Hf) m.
+  destruct (reach_inv _ _ _ _ _ _ _ _ _ Hn Hl H) as (_ & _ & HQ). specialize (HQ Hnr).
+  apply write_refused_op. destruct (x_state x) eqn:Es; try reflexivity. exfalso.
+  destruct HQ as [HQ _]. rewrite Es in HQ. cbn in HQ. destruct HQ as [HQ _].
+  unfold noclose in HQ. rewrite Forall_forall in HQ. apply (HQ f Hin). exact Hf.
+Qed.
+
+Theorem a_close_last_queued role part cfg x0 w0 ops rs x w :
+  ctx_new role part cfg = Some x0 -> w_log w0 = [] -> no_raw ops ->
+  run_ops x0 ops w0 = (rs, x, w) ->
+  forall pre c post, queued (w_log w) = pre ++ c :: post ->
+    h_opcode (f_hdr c) = OCtl Close -> post = [].
+Proof.
+  intros Hn Hl Hnr H.
+  destruct (reach_inv _ _ _ _ _ _ _ _ _ Hn Hl H) as (_ & _ & HQ). specialize (HQ Hnr).
+  destruct HQ as [HQ _]. apply QP_shape in HQ. apply shape_close_last. exact HQ.
+Qed.
+
+(* the log only grows: "last of queued at the end" means "last at every moment" *)
+Lemma run_ops_log_mono ops x w rs x' w' : run_ops x ops w = (rs, x', w') ->
+  exists evs, w_log w' = w_log w ++ evs.
+Proof.
+  intros H. assert (Hc : crs (x_state x) (match x_state x with ClosedByPeer | CloseAcknowledged => true | _ => false end)).
+  { destruct (x_state x); reflexivity. }
+  destruct (run_ops_inv _ _ _ _ _ _ _ H Hc) as (_ & _ & He & _). exact He.
+Qed.
